@@ -698,8 +698,9 @@ func cffOutlines(r *rand.Rand, o Opts, n int, widths []int, cidKeyed bool, info 
 	out.GIDToCID = make([]cid.CID, n)
 	next := cid.CID(0)
 	for i := 1; i < n; i++ {
-		if r.IntN(4) == 0 {
-			next += cid.CID(1 + r.IntN(50))
+		// CIDs are 16-bit values in the charset: leave room for the rest
+		if room := 65535 - int(next) - (n - i); r.IntN(4) == 0 && room > 0 {
+			next += cid.CID(1 + r.IntN(min(50, room)))
 		} else {
 			next++
 		}
